@@ -85,6 +85,66 @@ pub fn nest_inputs(max: usize) -> Vec<Vec<u8>> {
         out.push(format!("* LIST {} \"/\" x\r\n", "(".repeat(n)).into_bytes());
         out.push(format!("* OK [{}\r\n", "[".repeat(n)).into_bytes());
     }
+    out.extend(wide_inputs(max));
+    out
+}
+
+/// Width instead of depth: one token or one flat list made of n repeated units (path components of a METADATA entry
+/// name, escape pairs of a quoted string, digits, list elements of every repetition the grammar has).  A parser that
+/// handles a repetition by recursion instead of a loop uses stack in proportion to n; the responses stay below 64 KiB
+/// up to the largest n that fits.
+pub fn wide_inputs(max: usize) -> Vec<Vec<u8>> {
+    let mut out: Vec<Vec<u8>> = vec![];
+    for &n in [50usize, 1000, 5000, 20000].iter().filter(|d| **d <= max) {
+        let rep = |unit: &str, k: usize| unit.repeat(k);
+        // cap every response at about 64 KiB
+        let fit = |unit: &str| (60000 / unit.len().max(1)).min(n);
+        let mut push = |s: String| out.push(s.into_bytes());
+        // METADATA entry names: quoted, literal, bare; shared / private; vendor paths
+        let k = fit("/a");
+        let path = format!("/private/comment{}", rep("/a", k));
+        push(format!("* METADATA \"\" (\"{}\" \"x\")\r\n", path));
+        push(format!("* METADATA \"\" ({{{}}}\r\n{} \"x\")\r\n", path.len(), path));
+        push(format!("* METADATA \"\" ({} \"x\")\r\n", path));
+        push(format!("* METADATA \"\" \"/shared/vendor/x{}\"\r\n", rep("/b", k)));
+        push(format!("* METADATA INBOX {}\r\n", rep("/shared/comment ", fit("/shared/comment "))));
+        push(format!("* OK [METADATA LONGENTRIES {}] x\r\n", rep("9", fit("9"))));
+        // quoted strings made of escape pairs, long atoms, long texts, long numerals
+        push(format!("* LIST () \"/\" \"{}\"\r\n", rep("\\\\", fit("\\\\"))));
+        push(format!("* LIST () \"/\" \"{}\"\r\n", rep("\\\"", fit("\\\""))));
+        push(format!("* LIST () \"/\" {}\r\n", rep("a", fit("a"))));
+        push(format!("* OK {}\r\n", rep("x ", fit("x "))));
+        push(format!("* {}1 EXISTS\r\n", rep("0", fit("0"))));
+        push(format!("* 1 FETCH (RFC822.SIZE {}1)\r\n", rep("0", fit("0"))));
+        push(format!("* 1 FETCH (RFC822 {{{}1}}\r\nx)\r\n", rep("0", fit("0"))));
+        // flat repetitions
+        push(format!("* SEARCH{}\r\n", rep(" 1", fit(" 1"))));
+        push(format!("* SORT{}\r\n", rep(" 7", fit(" 7"))));
+        push(format!("* FLAGS (\\Seen{})\r\n", rep(" a", fit(" a"))));
+        push(format!("* 1 FETCH (FLAGS (\\Seen{}))\r\n", rep(" \\Draft", fit(" \\Draft"))));
+        push(format!("* 1 FETCH (X-GM-LABELS (a{}))\r\n", rep(" \"b\"", fit(" \"b\""))));
+        push(format!("* OK [PERMANENTFLAGS (\\*{})] x\r\n", rep(" k", fit(" k"))));
+        push(format!("* CAPABILITY IMAP4rev1{}\r\n", rep(" AUTH=X", fit(" AUTH=X"))));
+        push(format!("* ENABLED{}\r\n", rep(" X", fit(" X"))));
+        push(format!("* VANISHED (EARLIER) 1{}\r\n", rep(",2:3", fit(",2:3"))));
+        push(format!("* OK [COPYUID 1 1{} 5{}] x\r\n", rep(",2", fit(",2") / 2), rep(",6:7", fit(",6:7") / 2)));
+        push(format!("* ID (\"a\" \"b\"{})\r\n", rep(" \"c\" NIL", fit(" \"c\" NIL"))));
+        push(format!("* ACL INBOX{}\r\n", rep(" u lr", fit(" u lr"))));
+        push(format!("* LISTRIGHTS INBOX u lr{}\r\n", rep(" a", fit(" a"))));
+        push(format!("* QUOTA \"\" (STORAGE 1 2{})\r\n", rep(" MESSAGE 1 2", fit(" MESSAGE 1 2"))));
+        push(format!("* QUOTAROOT INBOX{}\r\n", rep(" \"r\"", fit(" \"r\""))));
+        push(format!("* STATUS x (MESSAGES 1{})\r\n", rep(" UNSEEN 2", fit(" UNSEEN 2"))));
+        push(format!("* LIST (\\Noselect{}) \"/\" x\r\n", rep(" \\X", fit(" \\X"))));
+        push(format!("* 1 FETCH (BODY[HEADER.FIELDS (a{})] NIL)\r\n", rep(" b", fit(" b"))));
+        push(format!("* 1 FETCH (BODY[1{}] NIL)\r\n", rep(".1", fit(".1"))));
+        push(format!("* 1 FETCH (UID 1{})\r\n", rep(" UID 1", fit(" UID 1"))));
+        let addr = "(NIL NIL \"a\" \"b\")";
+        push(format!("* 1 FETCH (ENVELOPE (NIL NIL ({}) NIL NIL NIL NIL NIL NIL NIL))\r\n", rep(addr, fit(addr))));
+        push(format!("* 1 FETCH (BODYSTRUCTURE (\"TEXT\" \"PLAIN\" (\"a\" \"b\"{}) NIL NIL \"7BIT\" 1 1))\r\n", rep(" \"c\" \"d\"", fit(" \"c\" \"d\""))));
+        push(format!("* 1 FETCH (BODYSTRUCTURE ({} \"MIXED\"))\r\n", rep(&format!("({})", LEAF), fit(&format!("({})", LEAF)))));
+        push(format!("* 1 FETCH (BODYSTRUCTURE ({} NIL NIL (\"en\"{}) NIL))\r\n", LEAF, rep(" \"de\"", fit(" \"de\""))));
+        push(format!("* 1 FETCH (BODYSTRUCTURE ({} NIL NIL NIL NIL (1{})))\r\n", LEAF, rep(" 2", fit(" 2"))));
+    }
     out
 }
 
